@@ -150,6 +150,75 @@ func genGrp(r *Rng, tier string) *Enc {
 	// the source must not have been touched
 	e.Tok("AFTER")
 	e.Frame(df)
+	// (a) aggregates of ONE grouping must be independent frames: aggregate, edit the result in place, aggregate
+	//     again — the second result must equal the first as it was returned
+	e.Tok("REAGG")
+	if status == "ok" && len(allCols) > 0 {
+		cols := []string{allCols[0]}
+		var first, second *dataframe.DataFrame
+		st1, _ := guard(func() error { var err error; first, err = g.Sum(cols...); return err })
+		e.Tok(st1)
+		if st1 == "ok" {
+			before := e.FrameS(first)
+			guard(func() error {
+				if first.Nrows() > 0 {
+					first.DropRow(0)
+				}
+				first.FillNa("edited")
+				return nil
+			})
+			st2, _ := guard(func() error { var err error; second, err = g.Sum(cols...); return err })
+			e.Tok(st2)
+			if st2 == "ok" {
+				if e.FrameS(second) == before {
+					e.Tok("same")
+				} else {
+					e.Tok("differs")
+				}
+			}
+		}
+	} else {
+		e.Tok("skip")
+	}
+	// (b) grouping again after an in-place edit of the frame must see the edit (no stale partition)
+	e.Tok("REGROUP")
+	if status == "ok" && n > 0 && len(keys) > 0 {
+		kcol := df.Columns[keys[0]]
+		guard(func() error {
+			kcol.Data[r.Intn(n)] = Pick(r, []any{1, "b", nil, true, 2})
+			if len(vnames) > 0 {
+				df.Columns[vnames[0]].Data[r.Intn(n)] = 41
+			}
+			return nil
+		})
+		var g2 *dataframe.GroupedDataFrame
+		st, _ := guard(func() error {
+			if list {
+				g2 = df.Groupby(keys)
+			} else {
+				g2 = df.Groupby(keys[0])
+			}
+			return g2.Error()
+		})
+		e.Tok(st)
+		e.Frame(df)
+		if st == "ok" {
+			e.Tok("NG")
+			e.Int(len(g2.Groups))
+			e.Tok("KO")
+			e.Int(len(g2.KeyOrder))
+			for _, k := range g2.KeyOrder {
+				e.Cell(k)
+				rows := g2.Groups[k]
+				e.Int(len(rows))
+				for _, row := range rows {
+					e.Row(row)
+				}
+			}
+		}
+	} else {
+		e.Tok("skip")
+	}
 	return e
 }
 
